@@ -9,7 +9,7 @@ def common_entries(v, side):
     T = [
         ('funds-attached', 'L', lambda e: e['fact'] == ('val', ISEMPTY(FUNDS), False)),
         ('id-not-a-uuid', 'L', lambda e: e['fact'] == ('is', ('uuid_parse', M(v, 'id')), 'Err')),
-        ('unknown-id', 'L', lambda e: e['fact'] == ('is', ('sload', side, M(v, 'id'), 'load', 0), 'Err')),
+        ('unknown-id', 'L', lambda e: is_not_on_book(e['fact'], side, M(v, 'id'))),
         ('empty-id', 'D(validate: a UUID is not empty)', lambda e: e['fact'] == ('val', ISEMPTY(M(v, 'id')), True)),
         ('config-load', 'I', lambda e: is_storage_load_err(e['fact'], 'contract_info')),
         ('storage-save', 'I', lambda e: is_save_err(e['fact'])),
